@@ -372,7 +372,7 @@ func c16Run(rc *RunCtx, params any) {
 					if _, err := conns[ep].Write(Payload(ep, 0, k, 20)); err != nil {
 						return k, err
 					}
-					time.Sleep(time.Duration(3+k) * time.Millisecond)
+					s.Sleep(time.Duration(3+k) * time.Millisecond)
 				}
 
 				return 4, nil
@@ -389,7 +389,7 @@ func c16Run(rc *RunCtx, params any) {
 					_ = conns[ep].RemoteAddr()
 					_ = conns[ep].LocalAddr()
 					_, _ = conns[ep].SelectedSRTPProtectionProfile()
-					time.Sleep(time.Duration(2+k) * time.Millisecond)
+					s.Sleep(time.Duration(2+k) * time.Millisecond)
 				}
 
 				return 6, nil
@@ -436,9 +436,9 @@ func c16Run(rc *RunCtx, params any) {
 					closeOps[ep] = append(closeOps[ep], ops.start("Close", ep, func() (int, error) { return 0, conns[ep].Close() }))
 				}
 			case "rdeadline":
-				_ = conns[ep].SetReadDeadline(time.Now().Add(time.Duration(p.DeadlineMs) * time.Millisecond))
+				_ = conns[ep].SetReadDeadline(time.Now().Add(s.Uniq(time.Duration(p.DeadlineMs) * time.Millisecond)))
 			case "wdeadline":
-				_ = conns[ep].SetWriteDeadline(time.Now().Add(time.Duration(p.DeadlineMs) * time.Millisecond))
+				_ = conns[ep].SetWriteDeadline(time.Now().Add(s.Uniq(time.Duration(p.DeadlineMs) * time.Millisecond)))
 			case "alert":
 				// a fatal alert in the clear; only meaningful before the receiver is established
 				n.InjectNow(pair.addrOf(other[ep]), pair.addrOf(ep), []byte{21, 0xfe, 0xfd, 0, 0, 0, 0, 0, 0, 0xff, 0, 0, 2, 2, 40})
